@@ -271,3 +271,74 @@ Theorem C01_sat_on_return_weight_history fuel s o s' :
     ZERO_UPPERBOUND <= sl /\ (act_of s' k = true -> sl == 0) /\ (ceq (con_of s' k) = true -> sl == 0).
 Proof. exact (sat_on_return_w fuel s o s'). Qed.
 Print Assumptions C01_sat_on_return_weight_history.
+
+(* ================= third round (Vpsc/VpscFlag.v): C01_flag_sound for inequality-only systems, all histories *)
+From Adapt Require Import Vpsc.VpscFlag.
+
+(* Block::isActiveDirectedPathBetween is sound and complete for directed paths of active constraints *)
+Theorem C01_directed_path_test_sound s this fuel u v :
+  is_active_directed_path_between fuel s this u v = Ok true -> exists p, dpath s u v p.
+Proof. exact (adpb_sound s this fuel u v). Qed.
+Print Assumptions C01_directed_path_test_sound.
+
+Theorem C01_directed_path_test_complete s this :
+  act_inv s -> forall fuel u v, is_active_directed_path_between fuel s this u v = Ok false ->
+  blk_of s u = this -> forall p, ~ dpath s u v p.
+Proof. exact (adpb_complete s this). Qed.
+Print Assumptions C01_directed_path_test_complete.
+
+(* site 1 (solve_VPSC.cpp:266): a violated constraint v whose ends are joined by a directed path of active (tight)
+   constraints from its right to its left variable closes a walk of positive total gap (any scales <> 0): infeasible *)
+Theorem C01_flag_site_directed_path_sound s v p :
+  act_inv s -> (v < length (scons s))%nat ->
+  blk_of s (cl (con_of s v)) = blk_of s (cr (con_of s v)) ->
+  ~ scl (var_of s (cl (con_of s v))) == 0 -> ~ scl (var_of s (cr (con_of s v))) == 0 ->
+  slack_val s v < 0 ->
+  dpath s (cr (con_of s v)) (cl (con_of s v)) p ->
+  0 < gap (con_of s v) + gsum s p /\ infeasible s.
+Proof. exact (directed_path_flag_infeasible s v p). Qed.
+Print Assumptions C01_flag_site_directed_path_sound.
+
+(* ... and that closed walk is a certificate the verified oracle of Feas.v accepts *)
+Theorem C01_flag_site_closed_walk s v p :
+  (v < length (scons s))%nat -> dpath s (cr (con_of s v)) (cl (con_of s v)) p ->
+  0 < gap (con_of s v) + gsum s p ->
+  closed_walk_ok (edges_of (scons s)) (walk_of s (v :: p)) = true.
+Proof. exact (directed_path_flag_closed_walk s v p). Qed.
+Print Assumptions C01_flag_site_closed_walk.
+
+(* site 2 (splitConstraint == nullptr / UnsatisfiableException from findMinLMBetween) is UNREACHABLE when no constraint
+   is an equality: under the invariant, if the directed-path test said "no" then findMinLMBetween finds a constraint *)
+Theorem C01_flag_site_no_split_unreachable s b lv rv s' :
+  book s -> act_inv s -> forest s -> noeq_sys s ->
+  (lv < length (svars s))%nat -> (rv < length (svars s))%nat -> blk_of s lv = b -> blk_of s rv = b ->
+  is_active_directed_path_between (walk_fuel s) s b rv lv = Ok false ->
+  find_min_lm_between s b lv rv = Ok (None, s') -> False.
+Proof. exact (find_min_lm_between_some s b lv rv s'). Qed.
+Print Assumptions C01_flag_site_no_split_unreachable.
+
+(* one iteration of the satisfy loop either flags nothing, or flags the constraint it took from the work-list together
+   with an explicit positive closed walk through it *)
+Theorem C01_flag_sound_step s b s' :
+  inv s -> wf_vars (svars s) -> noeq_sys s -> satisfy_step s = Ok (b, s') -> flag_step s s'.
+Proof. exact (satisfy_step_flag s b s'). Qed.
+Print Assumptions C01_flag_sound_step.
+
+(* C01_flag_sound: in every state of every history over an inequality-only system (ops: add an inequality, move a
+   desired position, solve, satisfy) a constraint flagged unsatisfiable implies that NO placement satisfies all
+   constraints *)
+Theorem C01_flag_sound s : reachable_ineq s -> forall c, uns_of s c = true -> infeasible s.
+Proof. exact (flag_sound_reachable s). Qed.
+Print Assumptions C01_flag_sound.
+
+(* on return of solve()/satisfy() in such a history: either nothing is flagged and the returned positions satisfy
+   every constraint to 1e-10, or something is flagged and the system is infeasible *)
+Theorem C01_flagged_iff_infeasible_on_return fuel s o s' :
+  reachable_ineq s -> run_result o fuel s s' ->
+  ((forall k, (k < length (scons s'))%nat -> uns_of s' k = false) /\
+   (forall k, (k < length (scons s'))%nat ->
+      ZERO_UPPERBOUND <= slackv (svars s') (place_of (final_positions s')) (con_of s' k)))
+  \/
+  ((exists k, (k < length (scons s'))%nat /\ uns_of s' k = true) /\ infeasible s').
+Proof. exact (flagged_iff_infeasible_on_return fuel s o s'). Qed.
+Print Assumptions C01_flagged_iff_infeasible_on_return.
